@@ -1,14 +1,264 @@
-import Blue.Proofs.TupleStringDecode
-import Blue.Proofs.TupleDecode
-import Blue.Proofs.TupleKey2
-import Blue.Proofs.TupleKey1
-import Blue.Proofs.Digits
-import Blue.Proofs.TupleString
-/-! Property C16: the theorems the check builds and audits (spike inventory; the build phase
-    completes the list from DESIGN Appendix C.0). -/
-#print axioms Blue.TupleKey1.encString_strong
-#print axioms Blue.TupleKey1.chunks_strong
-#print axioms Blue.TupleKey1.decU32_enc
-#print axioms Blue.TupleKey1.decI32_enc
-#print axioms Blue.TupleKey1.decU32_width
-#print axioms Blue.TupleKey1.decString_encString
+import Blue.Proofs.TupleKey1Parse
+import Blue.Proofs.TupleKey2T
+import Blue.Proofs.ConstsTieC16
+/-! # Property C16 — tuple-key encodings sort byte-wise exactly as their tuples, and decode back
+
+Property theorems only (helper lemmas live in `Blue/Proofs/{TupleKey1,TupleKey2,Digits,TupleString,
+TupleDecode,TupleStringDecode,TupleKey1T,TupleKey1Parse,TupleKey2T}.lean`).
+
+Two models, both tied to the crates byte for byte by the correspondence check:
+* `Blue.TupleKey1` — the field-numbered format (`tuple_key`): tag = rotated varint of
+  `field << 4 | discriminant`, seven data bits per byte with a low continuation bit,
+  `reverse_encoding` for `Direction::Reverse`, `TupleKeyIterator`/`TupleKeyParser`.
+* `Blue.TupleKey2` — the compact format (`tuple_key2`): length-tagged big-endian integers,
+  `00 → 00 ff` escaped byte strings with `00 00` terminator, `TupleKeyParser` with its `Error`s.
+
+`Strong enc lt` says: whenever `lt a b`, `enc a ++ x` is byte-wise below `enc b ++ y` *whatever*
+`x` and `y` are — order embedding and self-delimitation at once, which is what makes tuples compose
+(`strong_pair`) and keeps keys with a common prefix contiguous.
+
+The one place where the property is false is stated as theorems too: descending strings of the
+field-numbered format (D-20) — `string_desc_counterexample`, and exactly which pairs go wrong:
+`string_desc_partial` (all pairs outside `ContTie` are right) and `string_desc_tie_ascending`
+(all pairs inside `ContTie` are wrong). -/
+namespace Blue.Props.C16
+open Blue.TupleKey2 (blt Strong slt)
+
+/-! ## constants are the ones in the Rust source (regenerated every run) -/
+
+section Consts
+open Blue.TupleKey1
+
+/-- `to_discriminant`, in the order (unit, fixed32, fixed64, sfixed32, sfixed64, string) × (Forward, Reverse) -/
+theorem discriminants_from_source :
+    [discriminant .unit .fwd, discriminant .u32 .fwd, discriminant .u64 .fwd, discriminant .i32 .fwd,
+     discriminant .i64 .fwd, discriminant .str .fwd, discriminant .unit .rev, discriminant .u32 .rev,
+     discriminant .u64 .rev, discriminant .i32 .rev, discriminant .i64 .rev, discriminant .str .rev]
+      = Blue.Generated.tk1Discriminants := Blue.ConstsTie.tk1_discriminants
+
+/-- `from_discriminant` on every value of `x as u8 & 15` -/
+theorem from_discriminant_from_source :
+    (List.range 16).map (fun n => Blue.ConstsTie.tyDirCode (fromDiscriminant n)) = Blue.Generated.tk1FromDiscriminant :=
+  Blue.ConstsTie.tk1_from_discriminant
+
+/-- `ordered::DIVIDE_32/64` -/
+theorem signed_offsets_from_source :
+    offsetI32 0 = Blue.Generated.tk1Divide32 ∧ offsetI64 0 = Blue.Generated.tk1Divide64
+    ∧ decI32 (encU32 0) = some (-(Blue.Generated.tk1Divide32 : Int))
+    ∧ decI64 (encU64 0) = some (-(Blue.Generated.tk1Divide64 : Int)) := Blue.ConstsTie.tk1_offsets
+
+/-- `prototk::FieldNumber::new` -/
+theorem field_numbers_from_source :
+    firstFieldNumber = Blue.Generated.fieldFirst ∧ lastFieldNumber = Blue.Generated.fieldLast
+    ∧ firstReservedFieldNumber = Blue.Generated.fieldFirstReserved
+    ∧ lastReservedFieldNumber = Blue.Generated.fieldLastReserved := Blue.ConstsTie.field_numbers
+
+/-- the tag bytes of the compact format -/
+theorem compact_tags_from_source :
+    Blue.TupleKey2.SIGNED_NEG_BASE = Blue.Generated.tk2SignedNegBase
+    ∧ Blue.TupleKey2.SIGNED_NEG_LAST = Blue.Generated.tk2SignedNegLast
+    ∧ Blue.TupleKey2.SIGNED_NONNEG_BASE = Blue.Generated.tk2SignedNonnegBase
+    ∧ Blue.TupleKey2.SIGNED_NONNEG_LAST = Blue.Generated.tk2SignedNonnegLast
+    ∧ Blue.TupleKey2.UNSIGNED_BASE = Blue.Generated.tk2UnsignedBase
+    ∧ Blue.TupleKey2.UNSIGNED_LAST = Blue.Generated.tk2UnsignedLast
+    ∧ Blue.TupleKey2.UNIT_TAG = Blue.Generated.tk2UnitTag := Blue.ConstsTie.tk2_tags
+
+end Consts
+
+/-! ## field-numbered format: every element type, both directions -/
+section FieldNumbered
+open Blue.TupleKey1
+
+theorem u32_asc : Strong encU32 (fun a b => a < b ∧ b < 4294967296) := encU32_strong
+theorem u32_desc : Strong (fun v => reverse (encU32 v)) (fun a b => b < a ∧ a < 4294967296) := encU32_rev_strong
+theorem u64_asc : Strong encU64 (fun a b => a < b ∧ b < 18446744073709551616) := encU64_strong
+theorem u64_desc : Strong (fun v => reverse (encU64 v)) (fun a b => b < a ∧ a < 18446744073709551616) :=
+  encU64_rev_strong
+theorem i32_asc : Strong encI32 (fun a b => a < b ∧ -2147483648 ≤ a ∧ b < 2147483648) := encI32_strong
+theorem i32_desc : Strong (fun v => reverse (encI32 v)) (fun a b => b < a ∧ -2147483648 ≤ b ∧ a < 2147483648) :=
+  encI32_rev_strong
+theorem i64_asc : Strong encI64 (fun a b => a < b ∧ -9223372036854775808 ≤ a ∧ b < 9223372036854775808) :=
+  encI64_strong
+theorem i64_desc :
+    Strong (fun v => reverse (encI64 v)) (fun a b => b < a ∧ -9223372036854775808 ≤ b ∧ a < 9223372036854775808) :=
+  encI64_rev_strong
+
+/-- ascending strings: byte strings compare as their encodings, a string before its extensions -/
+theorem string_asc : Strong encString (fun s t => blt s t = true ∧ Bytes s ∧ Bytes t) := encString_strong
+
+/-- **D-20** descending strings do NOT sort in reverse (`""` vs `"\0"`) -/
+theorem string_desc_counterexample : ¬ Strong (fun s => reverse (encString s)) (fun a b => slt b a) :=
+  Blue.TupleKey1.string_desc_counterexample
+
+/-- descending strings, what does hold: every pair whose forward encodings first differ in a
+    data bit.  `_partial` because the full statement is `string_desc_counterexample`-false; the
+    excluded pairs are exactly `ContTie` (decidable: `contTie_decidable`). -/
+theorem string_desc_partial :
+    Strong (fun s => reverse (encString s))
+      (fun s t => blt t s = true ∧ Bytes s ∧ Bytes t ∧ ¬ ContTie (encString t) (encString s)) :=
+  Blue.TupleKey1.string_desc_partial
+
+/-- **D-20, the whole class**: every pair whose forward encodings first differ in the
+    continuation bit keeps its ascending order under `Direction::Reverse` -/
+theorem string_desc_tie_ascending (s t : List Nat) (h : ContTie (encString s) (encString t)) (x y : List Nat) :
+    blt (reverse (encString s) ++ x) (reverse (encString t) ++ y) = true :=
+  Blue.TupleKey1.string_desc_tie_ascending s t h x y
+
+/-- the trigger is what the driver computes on every pair (`tie=` in the observation) -/
+theorem contTie_decidable (x y : List Nat) : ContTie x y ↔ contTieB x y = true := contTie_iff x y
+
+/-- every pair of strings in ascending order is decided either in data bits or in the
+    continuation bit: nothing else can happen, so D-20's class is complete -/
+theorem string_pairs_dichotomy {s t : List Nat} (h : blt s t = true) (hs : Bytes s) (ht : Bytes t) :
+    DataLt (encString s) (encString t) ∨ ContTie (encString s) (encString t) :=
+  strong_dichotomy encString_strong (a := s) (b := t) ⟨h, hs, ht⟩
+
+/-- one tagged field (`extend_with_key`): tag, then the element, inverted if `Reverse` -/
+theorem field_order (f : Nat) (d : Dir) :
+    Strong (encField f d) (fun a b => a.InRange ∧ b.InRange ∧ fieldLt d a b) := encField_strong f d
+
+/-- **tuples**: two tuples with the same field numbers and directions compare element by element
+    (reversed per descending element; descending strings minus D-20's pairs), whatever follows -/
+theorem tuple_order : Strong encTuple (fun a b => TupleInRange a ∧ TupleInRange b ∧ tupleLt a b) :=
+  encTuple_strong
+
+/-- prefix contiguity: a tuple sorts before each of its extensions … -/
+theorem tuple_extension_after (t e : List (Nat × Dir × Val)) (he : e ≠ []) :
+    blt (encTuple t) (encTuple (t ++ e)) = true := Blue.TupleKey1.tuple_extension_after t e he
+
+/-- … and every extension of `t` sorts before everything that sorts after `t` -/
+theorem tuple_extension_before (t t' e e' : List (Nat × Dir × Val))
+    (ht : TupleInRange t) (ht' : TupleInRange t') (h : tupleLt t t') :
+    blt (encTuple (t ++ e)) (encTuple (t' ++ e')) = true :=
+  Blue.TupleKey1.tuple_extension_before t t' e e' ht ht' h
+
+/-- element decoders invert the encoders; other widths are rejected -/
+theorem element_decoders :
+    (∀ x, x < 4294967296 → decU32 (encU32 x) = some x)
+    ∧ (∀ x, x < 18446744073709551616 → decU64 (encU64 x) = some x)
+    ∧ (∀ x : Int, -2147483648 ≤ x → x < 2147483648 → decI32 (encI32 x) = some x)
+    ∧ (∀ x : Int, -9223372036854775808 ≤ x → x < 9223372036854775808 → decI64 (encI64 x) = some x)
+    ∧ (∀ s, Bytes s → decString (encString s) = s)
+    ∧ (∀ bs : List Nat, bs.length ≠ 5 → decU32 bs = none) :=
+  ⟨decU32_enc, decU64_enc, decI32_enc, decI64_enc, decString_encString, decU32_width⟩
+
+/-- **round trip**: `TupleKeyParser` with the writer's element sequence returns the tuple — in
+    both directions, descending strings included — and stands exactly behind the key -/
+theorem tuple_roundtrip (t : List (Nat × Dir × Val)) (h : ∀ e ∈ t, ElemOk e) (rest : List Nat) :
+    parseRow (schemaOf t) (encTuple t ++ rest) = (t.map (fun e => e.2.2), .ok rest) :=
+  parseRow_encTuple t h rest
+
+end FieldNumbered
+
+/-! ## compact format -/
+section Compact
+open Blue.TupleKey2
+
+theorem compact_u64 : Strong encodeU64 (fun a b => a < b) := encodeU64_strong
+theorem compact_i64 : Strong encodeI64 (fun a b => a < b ∧ I64 a ∧ I64 b) := encodeI64_strong
+theorem compact_bytes : Strong encodeBytes slt := encodeBytes_strong
+
+/-- lexicographic pairs of strong encodings are strong (the step of every tuple theorem) -/
+theorem strong_pair {α β : Type} {ea : α → List Nat} {eb : β → List Nat}
+    {la : α → α → Prop} {lb : β → β → Prop} (ha : Strong ea la) (hb : Strong eb lb) :
+    Strong (fun p : α × β => ea p.1 ++ eb p.2) (fun p q => la p.1 q.1 ∨ (p.1 = q.1 ∧ lb p.2 q.2)) :=
+  Blue.TupleKey2.strong_pair ha hb
+
+/-- **tuples**, as the builder the driver runs encodes them -/
+theorem compact_tuple_order {ra rb : List (Ty × Val)} {ea eb : List Nat}
+    (ha : encRow ra = some ea) (hb : encRow rb = some eb)
+    (ia : RowInRange (ra.map (·.2))) (ib : RowInRange (rb.map (·.2)))
+    (h : rowLt (ra.map (·.2)) (rb.map (·.2))) (x y : List Nat) : blt (ea ++ x) (eb ++ y) = true :=
+  encRow_strong ha hb ia ib h x y
+
+theorem compact_extension_after (t e : List Val) (he : e ≠ []) : blt (encVals t) (encVals (t ++ e)) = true :=
+  vals_extension_after t e he
+
+theorem compact_extension_before (t t' e e' : List Val) (ht : RowInRange t) (ht' : RowInRange t')
+    (h : rowLt t t') : blt (encVals (t ++ e)) (encVals (t' ++ e')) = true :=
+  vals_extension_before t t' e e' ht ht' h
+
+/-- element parsers invert the builder and hand over exactly what follows -/
+theorem compact_element_decoders :
+    (∀ v rest, v < 18446744073709551616 → parseU64 (encodeU64 v ++ rest) = .ok (v, rest))
+    ∧ (∀ z rest, I64 z → parseI64 (encodeI64 z ++ rest) = .ok (z, rest))
+    ∧ (∀ s rest fuel, (encodeBytes s).length ≤ fuel → parseBytes fuel (encodeBytes s ++ rest) = .ok (s, rest))
+    ∧ (∀ s rest fuel, (encodeBytes s).length ≤ fuel → decodeBytes fuel (encodeBytes s ++ rest) = some (s, rest)) :=
+  ⟨fun v rest h => parseU64_encode v h rest, fun z rest h => parseI64_encode z h rest,
+   parseBytes_encode, decodeBytes_encode⟩
+
+/-- **round trip**: the parser with the writer's type sequence returns the tuple and `finish`
+    accepts (all eleven builder methods, with their range checks) -/
+theorem compact_roundtrip (r : List (Ty × Val)) (h : ∀ e ∈ r, TyOk e.1 e.2) :
+    parseRow (r.map (·.1)) (encVals (r.map (·.2))) = (r.map (·.2), none) := parseRow_encode r h
+
+end Compact
+
+/-! ## non-vacuity: the hypotheses are met by concrete, non-trivial inputs -/
+section NonVacuity
+open Blue.TupleKey1
+
+-- a two-element tuple pair decided in the second, descending, element
+example : tupleLt [(1, .fwd, .str [0x61]), (8, .rev, .i64 (-1))] [(1, .fwd, .str [0x61]), (8, .rev, .i64 (-2))] := by
+  simp [tupleLt, fieldLt, Val.lt, NoTie]
+example : TupleInRange [(1, .fwd, .str [0x61]), (8, .rev, .i64 (-1))] := by
+  intro e he
+  simp only [List.mem_cons, List.not_mem_nil, or_false] at he
+  rcases he with rfl | rfl
+  · intro b hb; simp only [List.mem_cons, List.not_mem_nil, or_false] at hb; omega
+  · exact ⟨by omega, by omega⟩
+-- a descending string pair outside D-20's class, and one inside
+example : blt [0x61] [0x62] = true ∧ ¬ ContTie (encString [0x61]) (encString [0x62]) := by decide
+example : ContTie (encString []) (encString [0]) := contTie_empty_zero
+example : ContTie (encString [0x61, 0x62, 0x63, 0x64, 0x65, 0x66, 0x67])
+    (encString [0x61, 0x62, 0x63, 0x64, 0x65, 0x66, 0x67, 0xff]) := by decide
+-- an element that meets the round trip's conditions
+example : ElemOk (536870911, .rev, .str [0xf4, 0x8f, 0xbf, 0xbf]) := by
+  refine ⟨by decide, ?_, ?_⟩
+  · intro b hb; simp only [List.mem_cons, List.not_mem_nil, or_false] at hb; omega
+  · intro s hs; cases hs; decide
+example : Blue.TupleKey2.TyOk .i8 (.int (-128)) ∧ Blue.TupleKey2.TyOk .str (.bytes [0xc3, 0xbf]) := by
+  refine ⟨⟨by omega, by omega⟩, ?_⟩
+  show Blue.Utf8.valid [0xc3, 0xbf] = true
+  decide
+example : Blue.TupleKey2.rowLt [.bytes [0], .int (-129)] [.bytes [0], .int (-128)] := by
+  simp [Blue.TupleKey2.rowLt, Blue.TupleKey2.Val.lt]
+
+end NonVacuity
+
+end Blue.Props.C16
+
+#print axioms Blue.Props.C16.discriminants_from_source
+#print axioms Blue.Props.C16.from_discriminant_from_source
+#print axioms Blue.Props.C16.signed_offsets_from_source
+#print axioms Blue.Props.C16.field_numbers_from_source
+#print axioms Blue.Props.C16.compact_tags_from_source
+#print axioms Blue.Props.C16.u32_asc
+#print axioms Blue.Props.C16.u32_desc
+#print axioms Blue.Props.C16.u64_asc
+#print axioms Blue.Props.C16.u64_desc
+#print axioms Blue.Props.C16.i32_asc
+#print axioms Blue.Props.C16.i32_desc
+#print axioms Blue.Props.C16.i64_asc
+#print axioms Blue.Props.C16.i64_desc
+#print axioms Blue.Props.C16.string_asc
+#print axioms Blue.Props.C16.string_desc_counterexample
+#print axioms Blue.Props.C16.string_desc_partial
+#print axioms Blue.Props.C16.string_desc_tie_ascending
+#print axioms Blue.Props.C16.contTie_decidable
+#print axioms Blue.Props.C16.string_pairs_dichotomy
+#print axioms Blue.Props.C16.field_order
+#print axioms Blue.Props.C16.tuple_order
+#print axioms Blue.Props.C16.tuple_extension_after
+#print axioms Blue.Props.C16.tuple_extension_before
+#print axioms Blue.Props.C16.element_decoders
+#print axioms Blue.Props.C16.tuple_roundtrip
+#print axioms Blue.Props.C16.compact_u64
+#print axioms Blue.Props.C16.compact_i64
+#print axioms Blue.Props.C16.compact_bytes
+#print axioms Blue.Props.C16.strong_pair
+#print axioms Blue.Props.C16.compact_tuple_order
+#print axioms Blue.Props.C16.compact_extension_after
+#print axioms Blue.Props.C16.compact_extension_before
+#print axioms Blue.Props.C16.compact_element_decoders
+#print axioms Blue.Props.C16.compact_roundtrip
